@@ -1,4 +1,517 @@
-//! C05 monitor (not written yet).
-use crate::ctx::Ctx;
+//! C05 — subtype and upgrade checks decide the spec relation (greatest fixed point), independent of
+//! field/definition order, names, earlier successful queries on the same memo and failed probes.
+use super::common::*;
+use crate::conv::*;
+use crate::ctx::{catch, Ctx};
+use crate::gen::types::*;
+use crate::gen::upgrade::Upgrader;
+use crate::model::misc::label_hash;
+use crate::model::subtype as r3;
+use crate::model::*;
+use crate::rng::{hash_str, Rng};
+use candid::types::subtype::{equal, subtype_check_all, subtype_with_config, Gamma, OptReport};
+use candid::types::{Type, TypeEnv};
+use serde_json::json;
 
-pub fn run(_ctx: &mut Ctx) {}
+fn h(s: &str) -> u32 {
+    label_hash(s)
+}
+
+/// Catalogue of definition bodies over two references (this side's A and B).
+fn catalogue(a: &RType, b: &RType, full: bool) -> Vec<RType> {
+    let mut c = vec![
+        RType::opt(a.clone()),
+        RType::vec(a.clone()),
+        RType::vec(b.clone()),
+        RType::record(vec![(h("a"), b.clone()), (h("z"), RType::Text)]),
+        RType::record(vec![(h("a"), b.clone()), (h("z"), RType::Nat)]),
+        RType::record(vec![(h("a"), RType::Nat), (h("b"), RType::opt(b.clone()))]),
+        RType::variant(vec![(h("a"), RType::Null), (h("b"), b.clone())]),
+        RType::record(vec![(h("p"), RType::opt(a.clone())), (h("q"), b.clone())]),
+        RType::func(vec![a.clone()], vec![b.clone()], vec![]),
+        RType::Nat,
+    ];
+    if full {
+        c.extend(vec![
+            RType::Int,
+            RType::Text,
+            RType::Reserved,
+            RType::Empty,
+            RType::opt(b.clone()),
+            RType::opt(RType::Nat),
+            RType::record(vec![(h("a"), a.clone())]),
+            RType::record(vec![]),
+            RType::record(vec![(h("a"), RType::Int), (h("b"), RType::opt(b.clone())), (h("c"), RType::Null)]),
+            RType::variant(vec![(h("a"), RType::Null)]),
+            RType::variant(vec![(h("a"), RType::Null), (h("b"), b.clone()), (h("c"), RType::Text)]),
+            RType::func(vec![b.clone()], vec![a.clone()], vec![Mode::Query]),
+            RType::func(vec![RType::opt(a.clone())], vec![], vec![]),
+            RType::service(vec![("f".into(), RType::func(vec![a.clone()], vec![b.clone()], vec![]))]),
+            RType::service(vec![
+                ("f".into(), RType::func(vec![a.clone()], vec![b.clone()], vec![])),
+                ("g".into(), RType::func(vec![], vec![], vec![Mode::Oneway])),
+            ]),
+        ]);
+    }
+    c
+}
+
+/// Queries asked in a four-definition environment: indices 0,1 = new A,B ; 2,3 = old A,B
+fn queries() -> Vec<(RType, RType)> {
+    let (na, nb, oa, ob) = (RType::Ref(0), RType::Ref(1), RType::Ref(2), RType::Ref(3));
+    vec![
+        (na.clone(), oa.clone()),
+        (nb.clone(), ob.clone()),
+        (na.clone(), ob.clone()),
+        (oa.clone(), na.clone()),
+        (
+            RType::record(vec![(h("p"), RType::opt(na.clone())), (h("q"), nb.clone())]),
+            RType::record(vec![(h("p"), RType::opt(oa.clone())), (h("q"), ob.clone())]),
+        ),
+        (RType::vec(na.clone()), RType::vec(oa.clone())),
+        (
+            RType::func(vec![oa.clone()], vec![nb.clone()], vec![]),
+            RType::func(vec![na.clone()], vec![ob.clone()], vec![]),
+        ),
+        (
+            RType::service(vec![("m".into(), RType::func(vec![], vec![RType::record(vec![(h("p"), RType::opt(na.clone())), (h("q"), nb.clone())])], vec![]))]),
+            RType::service(vec![("m".into(), RType::func(vec![], vec![RType::record(vec![(h("p"), RType::opt(oa.clone())), (h("q"), ob.clone())])], vec![]))]),
+        ),
+    ]
+}
+
+fn candid_subtype(env: &TypeEnv, gamma: &mut Gamma, a: &Type, b: &Type) -> Result<bool, crate::ctx::PanicInfo> {
+    catch(|| subtype_with_config(OptReport::Silence, gamma, env, a, b).is_ok())
+}
+
+fn is_vacuous(env: &REnv) -> bool {
+    env.0.iter().any(|t| env.unfold(t).is_none())
+}
+
+fn check_query(ctx: &mut Ctx, env: &REnv, cenv: &TypeEnv, a: &RType, b: &RType, family: &str) -> Option<bool> {
+    let want = r3::subtype(env, a, b);
+    let (ca, cb) = (to_candid_type(a, None), to_candid_type(b, None));
+    let mut g = Gamma::new();
+    match candid_subtype(cenv, &mut g, &ca, &cb) {
+        Err(p) => {
+            ctx.violation(&format!("panic|subtype|{}", p.sig()), &p.message, json!({"env": env.to_string(), "t1": a.to_string(), "t2": b.to_string()}));
+            None
+        }
+        Ok(got) => {
+            if got != want {
+                let dir = if got { "accepts-non-subtype" } else { "rejects-subtype" };
+                ctx.violation(
+                    &format!("{dir}|{family}|{}|{}", shape(env, a, 2), shape(env, b, 2)),
+                    &format!("candid says {got}, the greatest fixed point says {want} for {a} <: {b}"),
+                    json!({"env": env.to_string(), "t1": a.to_string(), "t2": b.to_string()}),
+                );
+            } else {
+                ctx.count(if want { "agree:subtype-yes" } else { "agree:subtype-no" });
+            }
+            // the all-errors variant agrees (report empty exactly when compatible)
+            let mut g2 = Gamma::new();
+            if let Ok(errs) = catch(|| subtype_check_all(&mut g2, cenv, &ca, &cb)) {
+                if errs.is_empty() != want {
+                    ctx.violation(
+                        &format!("report-disagrees|{family}|{}", if errs.is_empty() { "empty-for-non-subtype" } else { "errors-for-subtype" }),
+                        &format!("subtype_check_all returned {} error(s) but the relation is {want} for {a} <: {b}", errs.len()),
+                        json!({"env": env.to_string(), "t1": a.to_string(), "t2": b.to_string(), "errors": errs.iter().take(3).map(|e| e.to_string()).collect::<Vec<_>>()}),
+                    );
+                }
+            }
+            Some(got)
+        }
+    }
+}
+
+// ---- .did text from model types (own printer) --------------------------------------------------
+
+fn quote(s: &str) -> String {
+    let ident = !s.is_empty()
+        && s.chars().next().map(|c| c.is_ascii_alphabetic() || c == '_').unwrap_or(false)
+        && s.chars().all(|c| c.is_ascii_alphanumeric() || c == '_');
+    const KW: &[&str] = &[
+        "import", "service", "func", "type", "opt", "vec", "record", "variant", "blob", "principal", "nat", "nat8", "nat16", "nat32",
+        "nat64", "int", "int8", "int16", "int32", "int64", "float32", "float64", "bool", "text", "null", "reserved", "empty", "oneway",
+        "query", "composite_query", "true", "false",
+    ];
+    if ident && !KW.contains(&s) {
+        return s.to_string();
+    }
+    let mut o = String::from("\"");
+    for c in s.chars() {
+        match c {
+            '"' => o.push_str("\\\""),
+            '\\' => o.push_str("\\\\"),
+            c if (c as u32) < 0x20 || c as u32 == 0x7f => o.push_str(&format!("\\u{{{:x}}}", c as u32)),
+            c => o.push(c),
+        }
+    }
+    o.push('"');
+    o
+}
+
+pub fn did_type(t: &RType, names: &[String], rng: &mut Rng) -> String {
+    match t {
+        RType::Ref(i) => names[*i].clone(),
+        RType::Opt(x) => format!("opt {}", did_type(x, names, rng)),
+        RType::Vec(x) => format!("vec {}", did_type(x, names, rng)),
+        RType::Record(fs) | RType::Variant(fs) => {
+            let mut parts: Vec<String> = fs.iter().map(|(i, x)| format!("{i} : {}", did_type(x, names, rng))).collect();
+            rng.shuffle(&mut parts);
+            format!("{} {{ {} }}", if matches!(t, RType::Record(_)) { "record" } else { "variant" }, parts.join("; "))
+        }
+        RType::Func { args, rets, modes } => {
+            let a: Vec<String> = args.iter().map(|x| did_type(x, names, rng)).collect();
+            let r: Vec<String> = rets.iter().map(|x| did_type(x, names, rng)).collect();
+            let m: Vec<&str> = modes
+                .iter()
+                .map(|m| match m {
+                    Mode::Query => " query",
+                    Mode::Oneway => " oneway",
+                    Mode::CompositeQuery => " composite_query",
+                })
+                .collect();
+            format!("func ({}) -> ({}){}", a.join(", "), r.join(", "), m.concat())
+        }
+        RType::Service(ms) => format!("service {}", did_methods(ms, names, rng)),
+        p => p.to_string(),
+    }
+}
+fn did_methods(ms: &[(String, RType)], names: &[String], rng: &mut Rng) -> String {
+    let mut parts: Vec<String> = ms
+        .iter()
+        .map(|(n, t)| {
+            let body = did_type(t, names, rng);
+            // a method is written `name : (args) -> (rets)` or `name : DefName`
+            let body = body.strip_prefix("func ").map(|s| s.to_string()).unwrap_or(body);
+            format!("{} : {}", quote(n), body)
+        })
+        .collect();
+    rng.shuffle(&mut parts);
+    format!("{{ {} }}", parts.join("; "))
+}
+/// A program text with the definitions in a random order under the given names.
+pub fn did_prog(env: &REnv, names: &[String], actor: &RType, rng: &mut Rng) -> String {
+    let mut defs: Vec<String> = env
+        .0
+        .iter()
+        .enumerate()
+        .map(|(i, t)| format!("type {} = {};", names[i], did_type(t, names, rng)))
+        .collect();
+    rng.shuffle(&mut defs);
+    let svc = match actor {
+        RType::Service(ms) => did_methods(ms, names, rng),
+        RType::Ref(i) => names[*i].clone(),
+        _ => "{}".into(),
+    };
+    format!("{}\nservice : {}\n", defs.join("\n"), svc)
+}
+
+fn gen_service(rng: &mut Rng, cfg: &TypeCfg, env: &REnv) -> RType {
+    let n = 1 + rng.usize(3);
+    let names = gen_method_names(rng, n);
+    let mut ms = Vec::new();
+    for name in names {
+        // identifiers only: keep the text simple
+        let na = rng.usize(3);
+        let nr = rng.usize(3);
+        let args = gen_types(rng, cfg, env, na);
+        let rets = gen_types(rng, cfg, env, nr);
+        ms.push((name, RType::func(args, rets, vec![])));
+    }
+    RType::service(ms)
+}
+
+pub fn run(ctx: &mut Ctx) {
+    // candid prints opt-rule warnings to stderr from service_compatible: silence fd 2 for this worker
+    unsafe {
+        let devnull = libc::open(b"/dev/null\0".as_ptr() as *const libc::c_char, libc::O_WRONLY);
+        if devnull >= 0 {
+            libc::dup2(devnull, 2);
+        }
+    }
+    let thorough = ctx.thorough();
+    // ---- 1. exhaustive small scope -----------------------------------------------------------
+    let probe = catalogue(&RType::Ref(0), &RType::Ref(1), thorough);
+    let c = probe.len() as u64;
+    let total = c * c * c * c;
+    let qs = queries();
+    let mut complete = false;
+    ctx.cases("exhaustive-small-environments", if thorough { 0.45 } else { 0.4 }, |ctx, _rng| {
+        let idx = ctx.case & ((1 << 40) - 1);
+        if idx >= total {
+            complete = true;
+            ctx.stats.evaluations -= 1;
+            ctx.stop_family = true;
+            return;
+        }
+        let (i0, i1, i2, i3) = (idx % c, (idx / c) % c, (idx / c / c) % c, idx / c / c / c);
+        let new = catalogue(&RType::Ref(0), &RType::Ref(1), thorough);
+        let old = catalogue(&RType::Ref(2), &RType::Ref(3), thorough);
+        let env = REnv(vec![new[i0 as usize].clone(), new[i1 as usize].clone(), old[i2 as usize].clone(), old[i3 as usize].clone()]);
+        if is_vacuous(&env) {
+            return;
+        }
+        let cenv = to_candid_env(&env, None);
+        for (a, b) in &qs {
+            check_query(ctx, &env, &cenv, a, b, "small-scope");
+            ctx.stats.evaluations += 1;
+        }
+        ctx.nontrivial(idx);
+        if idx % 997 == 0 {
+            ctx.sample(|| json!({"env": env.to_string(), "queries": qs.iter().map(|(a, b)| format!("{a} <: {b}")).collect::<Vec<_>>()}));
+        }
+    });
+    if complete {
+        ctx.stats.exhaustive.push(format!(
+            "all {total} environments (new A,B; old A,B) over a catalogue of {c} definition bodies x {} queries (this shard's residue class)",
+            qs.len()
+        ));
+    }
+    // ---- 2. random recursive environments, both directions, laws ---------------------------------
+    let cfg = TypeCfg { max_defs: 6, max_depth: 3, ..TypeCfg::default() };
+    ctx.cases("random-environments", 0.25, |ctx, rng| {
+        let env = gen_env(rng, &cfg);
+        let ts = gen_types(rng, &cfg, &env, 2);
+        let mut up = Upgrader::new(&cfg);
+        up.illegal_pct = *rng.pick(&[0, 10, 40]);
+        let (env2, ts2) = up.up_env(rng, &env, &ts);
+        let mut merged = env.clone();
+        let off = merged.append(&env2);
+        if is_vacuous(&merged) {
+            return;
+        }
+        let cenv = to_candid_env(&merged, None);
+        let mut answers = Vec::new();
+        for (t, t2) in ts.iter().zip(ts2.iter()) {
+            let t2s = t2.shift_refs(off);
+            let fwd = check_query(ctx, &merged, &cenv, t, &t2s, "random");
+            let bwd = check_query(ctx, &merged, &cenv, &t2s, t, "random");
+            answers.push((t.clone(), t2s.clone(), fwd, bwd));
+            // reflexivity
+            let ct = to_candid_type(t, None);
+            let mut g = Gamma::new();
+            if let Ok(false) = candid_subtype(&cenv, &mut g, &ct, &ct) {
+                ctx.violation("not-reflexive", &format!("{t} is not a subtype of itself"), json!({"env": merged.to_string()}));
+            }
+            // equal implies subtype both ways; equal agrees with structural equality
+            let ct2 = to_candid_type(&t2s, None);
+            let mut g = Gamma::new();
+            if let Ok(eq) = catch(|| equal(&mut g, &cenv, &ct, &ct2).is_ok()) {
+                let want = r3::requal(&merged, t, &t2s);
+                if eq != want {
+                    ctx.violation(
+                        &format!("equal-disagrees|{}", if eq { "equal-for-different" } else { "unequal-for-same" }),
+                        &format!("equal says {eq}, structural equality of the type graphs is {want}: {t} vs {t2s}"),
+                        json!({"env": merged.to_string()}),
+                    );
+                }
+                if eq && (fwd == Some(false) || bwd == Some(false)) {
+                    ctx.violation("equal-but-not-subtype", &format!("{t} equal {t2s} but not subtype both ways"), json!({"env": merged.to_string()}));
+                }
+            }
+            ctx.nontrivial(hash_str(&format!("{}|{}", shape(&merged, t, 4), shape(&merged, &t2s, 4))));
+        }
+        // transitivity on candid's own answers: t0 <: t1 (upgrade) and t1 <: u (second upgrade) => t0 <: u
+        if let Some((t, t2s, Some(true), _)) = answers.first().cloned() {
+            let mut up2 = Upgrader::new(&cfg);
+            up2.illegal_pct = 0;
+            let t3 = up2.up(rng, &t2s, merged.0.len(), true);
+            let (c1, c3) = (to_candid_type(&t, None), to_candid_type(&t3, None));
+            let c2 = to_candid_type(&t2s, None);
+            let mut g = Gamma::new();
+            let s23 = candid_subtype(&cenv, &mut g, &c2, &c3).unwrap_or(false);
+            let mut g = Gamma::new();
+            let s13 = candid_subtype(&cenv, &mut g, &c1, &c3).unwrap_or(true);
+            if s23 && !s13 && !r3::subtype(&merged, &t, &t3) {
+                // the rules themselves are not transitive here (a field dropped and re-added at type
+                // null: only opt and reserved absorb every type); candid follows the rules
+                ctx.count("observed:spec-relation-not-transitive");
+            } else if s23 && !s13 {
+                ctx.violation("not-transitive", &format!("{t} <: {t2s} and {t2s} <: {t3} but not {t} <: {t3}"), json!({"env": merged.to_string()}));
+            }
+            ctx.count("cover:transitivity-triples");
+        }
+        ctx.sample(|| json!({"env": merged.to_string(), "pairs": answers.iter().map(|(a, b, f, r)| format!("{a} <: {b} = {f:?}; reverse = {r:?}")).collect::<Vec<_>>()}));
+    });
+    // ---- 3. history independence: one memo shared by a sequence of queries -----------------------
+    ctx.cases("shared-memo-histories", 0.15, |ctx, rng| {
+        let env = gen_env(rng, &cfg);
+        let mut up = Upgrader::new(&cfg);
+        up.illegal_pct = 20;
+        let (env2, _) = up.up_env(rng, &env, &[]);
+        let mut merged = env.clone();
+        let off = merged.append(&env2);
+        if is_vacuous(&merged) || env.0.is_empty() {
+            return;
+        }
+        let cenv = to_candid_env(&merged, None);
+        let n = env.0.len();
+        let mut gamma = Gamma::new();
+        let mut hist: Vec<String> = Vec::new();
+        for _ in 0..(2 + rng.usize(8)) {
+            // queries between corresponding and non-corresponding definitions, and wrapped in constructors
+            let i = rng.usize(n);
+            let j = if rng.chance(2, 3) { i } else { rng.usize(n) };
+            let (mut a, mut b) = (RType::Ref(i), RType::Ref(off + j));
+            if rng.bool() {
+                std::mem::swap(&mut a, &mut b);
+            }
+            match rng.below(5) {
+                0 => {
+                    a = RType::opt(a);
+                    b = RType::opt(b);
+                }
+                1 => {
+                    a = RType::vec(a);
+                    b = RType::vec(b);
+                }
+                2 => {
+                    let k = rng.usize(n);
+                    a = RType::record(vec![(h("p"), RType::opt(a)), (h("q"), RType::Ref(k))]);
+                    b = RType::record(vec![(h("p"), RType::opt(b)), (h("q"), RType::Ref(off + k))]);
+                }
+                _ => {}
+            }
+            let want = r3::subtype(&merged, &a, &b);
+            let (ca, cb) = (to_candid_type(&a, None), to_candid_type(&b, None));
+            let got = match candid_subtype(&cenv, &mut gamma, &ca, &cb) {
+                Ok(g) => g,
+                Err(p) => {
+                    ctx.violation(&format!("panic|subtype-shared-memo|{}", p.sig()), &p.message, json!({"env": merged.to_string()}));
+                    return;
+                }
+            };
+            let mut fresh = Gamma::new();
+            let alone = candid_subtype(&cenv, &mut fresh, &ca, &cb).unwrap_or(want);
+            if got != alone || got != want {
+                ctx.violation(
+                    &format!("history-dependent|{}", if got { "accepts-after-history" } else { "rejects-after-history" }),
+                    &format!("{a} <: {b}: with the shared memo {got}, with a fresh memo {alone}, greatest fixed point {want}; earlier queries: {hist:?}"),
+                    json!({"env": merged.to_string()}),
+                );
+                return;
+            }
+            hist.push(format!("{a} <: {b} = {got}"));
+            if !got {
+                // the property speaks about earlier *successful* checks: start over after a failed one
+                gamma = Gamma::new();
+                hist.push("(memo reset)".into());
+            }
+            ctx.count("cover:shared-memo-queries");
+        }
+        ctx.nontrivial(hash_str(&hist.join("|")));
+    });
+    // ---- 4. through .did text: order and names; upgrade check entry points -----------------------
+    ctx.cases("did-text-upgrade-checks", 0.15, |ctx, rng| {
+        use candid_parser::utils::{service_compatibility_report, service_compatible, service_equal, CandidSource};
+        let cfg = TypeCfg { max_defs: 4, max_depth: 3, ..TypeCfg::default() };
+        let env = gen_env(rng, &cfg);
+        let old_actor = gen_service(rng, &cfg, &env);
+        let mut up = Upgrader::new(&cfg);
+        up.illegal_pct = *rng.pick(&[0, 15, 40]);
+        // new side: for an upgrade the NEW service must be a subtype of the OLD one: derive new by
+        // "downgrading" is awkward, so derive old' from old by supertype steps and swap roles
+        let (env_b, ts_b) = up.up_env(rng, &env, std::slice::from_ref(&old_actor));
+        let actor_b = match &ts_b[0] {
+            RType::Service(_) => ts_b[0].clone(),
+            _ => return,
+        };
+        if is_vacuous(&env) || is_vacuous(&env_b) {
+            return;
+        }
+        // names: same definition names on both sides (forces the renaming merge) or different ones
+        let names_a: Vec<String> = (0..env.0.len()).map(|i| format!("T{i}")).collect();
+        let names_b: Vec<String> = if rng.bool() {
+            names_a.clone()
+        } else {
+            (0..env_b.0.len()).map(|i| format!("U{}", env_b.0.len() - i)).collect()
+        };
+        let text_a = did_prog(&env, &names_a, &old_actor, rng);
+        let text_b = did_prog(&env_b, &names_b, &actor_b, rng);
+        // this monitor is about the relation, not the front end: programs the parser/checker rejects
+        // (field id 2^32-1 followed by another field: C13; recursive function types reached through a
+        // method reference: C14) are excluded here and counted
+        let max_id = |e: &REnv, a: &RType| format!("{e} {a}").contains("4294967295");
+        if max_id(&env, &old_actor) || max_id(&env_b, &actor_b) {
+            ctx.count("excluded:field-id-u32-max(C13)");
+            return;
+        }
+        for t in [&text_a, &text_b] {
+            match catch(|| CandidSource::Text(t).load().map(|_| ())) {
+                Ok(Ok(())) => {}
+                Ok(Err(e)) => {
+                    let s = e.to_string();
+                    if s.contains("Recursion limit") {
+                        ctx.count("excluded:checker-rejects-recursive-method-reference(C14)");
+                    } else {
+                        ctx.violation("harness|did-text-rejected", &s, json!({"text": t}));
+                    }
+                    return;
+                }
+                Err(p) => {
+                    ctx.violation(&format!("panic|load|{}", p.sig()), &p.message, json!({"text": t}));
+                    return;
+                }
+            }
+        }
+        // a is the subtype candidate ("new"), b the supertype ("old")
+        let want = r3::subtype2(&env, &old_actor, &env_b, &actor_b);
+        let input = || json!({"new": text_a, "old": text_b});
+        match catch(|| service_compatible(CandidSource::Text(&text_a), CandidSource::Text(&text_b))) {
+            Err(p) => ctx.violation(&format!("panic|service_compatible|{}", p.sig()), &p.message, input()),
+            Ok(r) => {
+                if let Err(e) = &r {
+                    let s = e.to_string();
+                    if s.contains("parser error") || s.contains("Unbound") {
+                        ctx.violation("harness|did-text-does-not-parse", &s, input());
+                        return;
+                    }
+                }
+                if r.is_ok() != want {
+                    ctx.violation(
+                        &format!("service_compatible|{}", if r.is_ok() { "accepts-incompatible" } else { "rejects-compatible" }),
+                        &format!("service_compatible says {}, the relation on the two services is {want}", r.is_ok()),
+                        input(),
+                    );
+                } else {
+                    ctx.count(if want { "agree:compatible" } else { "agree:incompatible" });
+                }
+            }
+        }
+        match catch(|| service_compatibility_report(CandidSource::Text(&text_a), CandidSource::Text(&text_b))) {
+            Err(p) => ctx.violation(&format!("panic|service_compatibility_report|{}", p.sig()), &p.message, input()),
+            Ok(Ok(errs)) => {
+                if errs.is_empty() != want {
+                    ctx.violation(
+                        &format!("report|{}", if errs.is_empty() { "empty-for-incompatible" } else { "errors-for-compatible" }),
+                        &format!("{} incompatibilities reported, relation is {want}: {:?}", errs.len(), errs.iter().take(3).map(|e| e.to_string()).collect::<Vec<_>>()),
+                        input(),
+                    );
+                }
+            }
+            Ok(Err(e)) => ctx.violation("report|error", &e.to_string(), input()),
+        }
+        // equality: a program against a re-printed permutation of itself, and against the other side
+        let names_c: Vec<String> = (0..env.0.len()).map(|i| format!("Z{}", i * 7 + 1)).collect();
+        let text_c = did_prog(&env, &names_c, &old_actor, rng);
+        if let Ok(r) = catch(|| service_equal(CandidSource::Text(&text_a), CandidSource::Text(&text_c))) {
+            if r.is_err() {
+                ctx.violation("service_equal|rejects-renamed-permutation", &format!("{:?}", r.err().map(|e| e.to_string())), json!({"left": text_a, "right": text_c}));
+            }
+        }
+        if let Ok(r) = catch(|| service_equal(CandidSource::Text(&text_a), CandidSource::Text(&text_b))) {
+            let want_eq = r3::requal2(&env, &old_actor, &env_b, &actor_b);
+            if r.is_ok() != want_eq {
+                ctx.violation(
+                    &format!("service_equal|{}", if r.is_ok() { "accepts-different" } else { "rejects-equal" }),
+                    &format!("service_equal says {}, structural equality is {want_eq}", r.is_ok()),
+                    input(),
+                );
+            }
+        }
+        ctx.nontrivial(hash_str(&format!("{}|{}", shape(&env, &old_actor, 5), shape(&env_b, &actor_b, 5))));
+        ctx.sample(input);
+    });
+}
